@@ -9,32 +9,6 @@ definition.  It is discharged for the live table by evaluation in `Props/C02.lea
 namespace Safe
 open Machine Args ArgsSafe
 
-def isHostSlot (a : ArgDef) : Bool := decide (ArgType.test ∈ a.types) || decide (ArgType.testlist ∈ a.types)
-
-/-- a slot of a definition that takes tests: required, typed exactly `[test]` or `[testlist]`, plain -/
-def hostSlotOK (a : ArgDef) : Bool :=
-  a.required && (a.types == [.test] || a.types == [.testlist]) && a.extra.isNone && a.values.isNone && a.extValues.isEmpty
-
-def isHost (d : CmdDef) : Bool := d.args.any isHostSlot
-
-def extraNoTest (a : ArgDef) : Bool :=
-  match a.extra with
-  | some e => !decide (ArgType.test ∈ e.types) && !decide (ArgType.testlist ∈ e.types)
-  | none => true
-
-def cmdSafe (d : CmdDef) : Bool :=
-  defSafe d &&
-  -- variable_args_nb ⇔ a testlist slot; such commands are tests opened by a parenthesis
-  (d.variableArgs == d.args.any (fun a => a.types == [.testlist])) &&
-  (!d.variableArgs || (d.kind == .test && d.expectedFirst == some [.left_parenthesis])) &&
-  -- commands taking tests: one plain required slot, control or test, no argument re-assignment
-  (!isHost d || (d.args.length == 1 && d.args.all hostSlotOK && d.kind != .action && !d.nonDet && d.special == .none)) &&
-  -- argument re-assignment only on tests
-  (!(d.nonDet || d.special == .hasflag) || (d.kind == .test && requiredCount d.args == 1)) &&
-  -- blocks: controls whose only arguments are tests (tests may carry the flag, it is never consulted for them)
-  (!d.acceptChildren || d.kind == .test || (d.kind == .control && (d.args.isEmpty || isHost d))) &&
-  d.args.all extraNoTest
-
 def TableSafe (T : Table) : Prop := ∀ d ∈ T, cmdSafe d = true
 
 instance (T : Table) : Decidable (TableSafe T) := by unfold TableSafe; infer_instance
